@@ -45,6 +45,9 @@ def gen_cases(tier, seed):
     fixed = ["9 to 5", "8 8 8", "am 5. um 8", "heute 8 uhr", "at the 5th", "von 8 bis 10", "monday morning", "in the evening", "early morning",
              "3 days", "5.3. 8:00", "tomorrow 9-5", "half past 8", "first", "12am", "late very late evening"]
     cases += [{"t": t, "ts": "2021-03-10T12:43:30"} for t in fixed]
+    from . import streams as S
+    cov = [e for e in S.cov_entries() if len(e["t"].split()) <= 5 and len(e["t"]) <= 36]
+    cases += [{"t": e["t"], "ts": e["ts"]} for e in (cov if tier == "thorough" else r.sample(cov, min(len(cov), 60)))]
     while len(cases) < n:
         x = r.random()
         if x < 0.6:
